@@ -9,7 +9,7 @@ namespace ListSem
 open Op
 
 /-- `f` commutes with multiplication by a scalar -/
-def Hom (f : V → V) : Prop := ∀ (a : ℝ) (x : V), f (x.map fun v => a * v) = (f x).map fun v => a * v
+private def Hom (f : V → V) : Prop := ∀ (a : ℝ) (x : V), f (x.map fun v => a * v) = (f x).map fun v => a * v
 
 /-! ### plumbing: `fit`, `headChunk`, `chunks`, `perLeaf` -/
 
@@ -30,7 +30,7 @@ theorem takeD_smul (a : ℝ) : ∀ (n : Nat) (x : V),
 
 theorem fit_smul (n : Nat) : Hom (fit n) := fun a x => takeD_smul a n x
 
-theorem fit_length (n : Nat) (x : V) : (fit n x).length = n := List.takeD_length _ _ _
+private theorem fit_length (n : Nat) (x : V) : (fit n x).length = n := List.takeD_length _ _ _
 
 theorem headChunk_smul (n : Nat) : Hom (headChunk n) := fun a x => by
   unfold headChunk
@@ -320,12 +320,12 @@ theorem leafHom (E : Env) : LeafHom E :=
 
 /-! ### the leaf part of the length law -/
 
-theorem leafDen_length (E : Env) (u : Nat) (c : LeafCls) (p : Params) (x : V) :
+private theorem leafDen_length (E : Env) (u : Nat) (c : LeafCls) (p : Params) (x : V) :
     (leafDen E u c p x).length = (if squareLeaf c then p.inS else p.outS).size := by
   unfold leafDen
   exact fit_length _ _
 
-theorem leafDenT_length (E : Env) (u : Nat) (c : LeafCls) (p : Params) (y : V) :
+private theorem leafDenT_length (E : Env) (u : Nat) (c : LeafCls) (p : Params) (y : V) :
     (leafDenT E u c p y).length = p.inS.size := by
   unfold leafDenT
   exact fit_length _ _
